@@ -47,7 +47,7 @@ func c28SettingsFor(rec *kit.Rec) []string {
 	return append(append([]string{}, c28Settings...), "-1", "4096", "40000")
 }
 
-func c28Sizes(rec *kit.Rec) (corpora, regexes int) { return rec.N(40, 240), 60 }
+func c28Sizes(rec *kit.Rec) (corpora, regexes int) { return rec.N(40, 160), 60 }
 
 // runes whose simple-fold orbit holds members of different UTF-8 length
 var c28LengthChanging = []rune{0x212A /* KELVIN SIGN */, 0x017F /* LONG S */, 0x212B /* ANGSTROM SIGN */, 0x1E9E /* CAPITAL SHARP S */, 0x2126 /* OHM SIGN */}
